@@ -35,6 +35,22 @@ func NewSession(r *sim.Rand, v11 bool) Session {
 	if v11 {
 		r.Fill(s.SNwkSInt[:])
 		r.Fill(s.NwkSEnc[:])
+		// keys are 128 arbitrary bits: now and then a 1.1 session has two equal
+		// keys, or a key of all zeros / all ones (a provisioning default)
+		switch r.Intn(16) {
+		case 0:
+			s.SNwkSInt = s.FNwkSInt
+		case 1:
+			s.NwkSEnc = s.FNwkSInt
+		case 2:
+			s.SNwkSInt = spec.Key{}
+		case 3:
+			s.FNwkSInt = spec.Key{}
+		case 4:
+			for i := range s.SNwkSInt {
+				s.SNwkSInt[i] = 0xff
+			}
+		}
 	} else {
 		s.SNwkSInt = s.FNwkSInt
 		s.NwkSEnc = s.FNwkSInt
